@@ -106,7 +106,7 @@ def _positional(fname: str | None, args: tuple, kwargs: tuple) -> tuple[tuple, t
         kwargs = tuple((k, v) for k, v in kwargs if d.get(k) != v)
     if not kwargs or fname is None or (fname not in SIGNATURES and fname not in EXTERNAL_SIGNATURES):
         return args, kwargs
-    params = SIGNATURES.get(fname) or EXTERNAL_SIGNATURES[fname]
+    params = SIGNATURES[fname] if fname in SIGNATURES else EXTERNAL_SIGNATURES[fname]
     kw = dict(kwargs)
     out = list(args)
     while len(out) < len(params) and params[len(out)] in kw:
@@ -191,6 +191,9 @@ def term(expr: ast.AST | None, env: dict[str, Term] | None = None) -> Term:
             return ('comp', elt, ((tgt, args[1], ()),))
         if isinstance(f, ast.Name) and f.id == 'list' and len(args) == 1 and not kwargs and args[0][0] == 'comp' and isinstance(expr.args[0], (ast.GeneratorExp, ast.Call)):
             return args[0]
+        # functools.reduce(operator.add, xs, init) is sum(xs, start=init) (a left fold with +)
+        if q == 'functools.reduce' and len(args) in (2, 3) and not kwargs and canon_lambda(args[0]) == ('lambda', ('_a', '_b'), ('binop', '+', ('var', '_a'), ('var', '_b'))):
+            return ('call', ('var', 'sum'), (args[1],), (('start', args[2]),) if len(args) == 3 else ())
         # typing.cast(T, x) is x
         if q in ('typing.cast', 'typing_extensions.cast') and len(args) == 2 and not kwargs:
             return args[1]
